@@ -131,6 +131,7 @@ class HubModel:
 
     def __init__(self, names):
         self.known = list(names)
+        self.open = dict((n, False) for n in names)     # what the caller asked for through the hub's open/close calls
         self.fwd = {}
         self.sinks = {}
         self.sources = {}
@@ -462,6 +463,29 @@ class RouterRun:
             # silent about exceptions from open/close -> probe only
             if exc is not None:
                 self.probes["exc_" + op + "_" + type(exc).__name__] += 1
+            if op in ("open", "close", "openall", "closeall"):
+                # "closed port" in the statement is the state the caller set through the hub: after openAll every
+                # endpoint is open, after closeAll none is, open/close(name) affect exactly that endpoint
+                if op == "openall":
+                    for n in md.known:
+                        md.open[n] = True
+                elif op == "closeall":
+                    for n in md.known:
+                        md.open[n] = False
+                elif st["n"] in md.known:
+                    md.open[st["n"]] = (op == "open")
+                if exc is not None:
+                    for n in md.known:          # an open/close that raised: take the endpoints as they are
+                        md.open[n] = bool(hub.comms.endpoints[n].open)
+                else:
+                    for n in md.known:
+                        if bool(hub.comms.endpoints[n].open) != md.open[n]:
+                            raise Violation("R-openclose", "after %s%s endpoint %s is %s" % (
+                                {"open": "openCom", "close": "closeCom", "openall": "openAll", "closeall": "closeAll"}[op],
+                                "(%r)" % st["n"] if "n" in st else "()", n,
+                                "still open: a port the caller closed keeps receiving and delivering" if not md.open[n]
+                                else "still closed: its registered destinations and sinks never see a message"), {"op": op})
+                    self.probes["open_close_state_checked"] += 1
             hub_deliv = [d for d in ctx.deliv]
             if op in ("open", "close", "openall", "closeall", "idle", "inject", "peer_drain") and hub_deliv:
                 raise Violation("R-fanout", "%s delivered %r" % (op, hub_deliv[:3]), {"op": op})
